@@ -211,10 +211,21 @@ func (s *simStore) Create(ctx context.Context, r kvs.Record) (string, error) {
 		s.w.onCreate(who, ver, r, lost)
 	}
 	zsimrt.Yield("st:resp:create")
+	s.replyLatency()
 	if lost {
 		return "", errInjected
 	}
 	return ver, err
+}
+
+// replyLatency: a storage whose answers to acquisition-path calls take a while
+// (knob acq_reply_latency_ns): the world moves on between the moment the storage
+// evaluated a request and the moment the caller sees the answer.
+func (s *simStore) replyLatency() {
+	if d := time.Duration(s.w.c.Knob("acq_reply_latency_ns", 0)); d > 0 {
+		s.w.e.FaultFired("acq_reply_slow")
+		zsimrt.Sleep("st:reply-latency", d)
+	}
 }
 
 func (s *simStore) Get(ctx context.Context, key string) (kvs.Record, error) {
@@ -287,6 +298,7 @@ func (s *simStore) Delete(ctx context.Context, key string) error {
 	err := s.base.Delete(ctx, key)
 	s.w.e.Logf("st n%d delete by %s -> %s", s.node, who, errStr(err))
 	zsimrt.Yield("st:resp:delete")
+	s.replyLatency()
 	if lost {
 		return errInjected
 	}
